@@ -395,4 +395,19 @@ def basicAuth (v : BasicView) : Nat :=
       if !v.hasColon then catchHand .basicB64 .ValueError
       else if v.passwordOk then 200 else 401
 
+/-! ### `SizedReader`: the size limit; `Request.process_headers`: the Host rule -/
+
+/-- A consumer reads the whole entity through `SizedReader` (`maxbytes` = `request.body.maxbytes`, 0 = no limit;
+    `declared` = Content-Length, `none` for a chunked body; `arrived` = bytes the client really sent): the number of
+    bytes read, or `HTTPError(413)` as soon as more than `maxbytes` were read. -/
+def sizedRead (maxbytes : Nat) (declared : Option Nat) (arrived : Nat) : Except Raised Nat :=
+  let n := match declared with
+    | some l => min l arrived
+    | none => arrived
+  if maxbytes ≠ 0 ∧ n > maxbytes then .error (.http 413) else .ok n
+
+/-- `Request.process_headers`: an HTTP/1.1 request without a Host header is a 400 -/
+def hostRule (p11 hasHost : Bool) : Except Raised Unit :=
+  if p11 && !hasHost then .error (.http 400) else .ok ()
+
 end CpModel.Parse
